@@ -1,6 +1,7 @@
 import Utv.Model.C20
 import Utv.Model.C20Reg
 import Utv.Model.C20Reg2
+import Utv.Model.C20Lazy
 import Utv.Util.J
 open Lean Utv.J Utv.C20
 
@@ -158,11 +159,43 @@ def handleReg2 (j : Json) : Json :=
     ("alone", Json.arr (progs.map fun ops => Json.arr ((Reg.answers W r0.entries ops).map resJson).toArray).toArray)]
 end Registry
 
+/-! lazily initialised attribute: replay of the getter-body lines of `positional_fields` among all other events -/
+def replayLazy (W : Lazy.World) : Lazy.Sys → List (Nat × String) → Nat → Lazy.Sys × Option (Nat × String)
+  | s, [], _ => (s, none)
+  | s, (tid, lab) :: rest, k =>
+    if lab.startsWith "pf:" then
+      let t := s.th tid
+      -- entering the body is only possible for a thread that did not find the attribute when it last looked
+      let s1 := if t.pc == .out then (if t.miss then Lazy.body W false s tid else s) else s
+      let want := (s1.th tid).pc.label
+      if want != lab then (s, some (k, if t.pc == .out && !t.miss then "<attribute already published>" else want))
+      else replayLazy W (Lazy.body W false s1 tid) rest (k + 1)
+    else replayLazy W (Lazy.other s tid) rest (k + 1)
+
+def handleLazy (j : Json) : Json :=
+  let n := nat! (fld j "n")
+  let W : Lazy.World := { n := n, hasField := fun _ => true }
+  let nthreads := nat! (fld j "nthreads")
+  let trace := (arr! (fld j "trace")).map fun e => match arr! e with
+    | [t, l] => (nat! t, str! l) | _ => (0, "")
+  let (s, bad) := replayLazy W Lazy.init trace 0
+  let tids := List.range nthreads
+  let lst (l : List Nat) := Json.arr (l.map (fun (i : Nat) => Json.num (JsonNumber.fromNat i))).toArray
+  Json.mkObj [
+    ("follows", Json.bool bad.isNone),
+    ("at", match bad with | some (k, _) => Json.num k | none => Json.null),
+    ("model_label", match bad with | some (_, l) => Json.str l | none => Json.null),
+    ("pcs", Json.arr (tids.map fun k => Json.str (s.th k).pc.label).toArray),
+    ("builds", Json.arr (tids.map fun k => Json.num (JsonNumber.fromNat (s.th k).rets.length)).toArray),
+    ("rets", Json.arr (tids.map fun k => Json.arr ((s.th k).rets.map lst).toArray).toArray),
+    ("slot", match s.slot with | some l => lst l | none => Json.null)]
+
 def handle (j : Json) : Json :=
   match str! (fld j "op") with
   | "fwd" => handleFwd j
   | "registry" => handleReg j
   | "registry2" => handleReg2 j
+  | "lazy" => handleLazy j
   | o => Json.mkObj [("driver-error", Json.str ("unknown op " ++ o))]
 
 def main : IO Unit := serve handle
